@@ -31,6 +31,8 @@ LAYOUTS = [
     ("lower", {"kwcase": "lower"}),
     ("formfeed", {"default_gap": " \f "}),
     ("formfeed_lines", {"stmt_gap": " \f\n"}),
+    ("multiline_c_comments", {"stmt_gap": " /* a\n   b\n c */\n"}),
+    ("multiline_c_comment_then_same_line", {"stmt_gap": "\n/* a\n b */ "}),
 ]
 GAP_KINDS = [" ", "\t", "\n", "\r\n", "  \f ", " # c\n", " /* c */ ", "\n\n   "]
 
@@ -54,7 +56,7 @@ def mk_style(tree, kw):
 
 def units(tier):
     us = [("FAULTS", i) for i in range(len(fault_docs()))]
-    us += [("MULTILINE",), ("ROOTLIST",)]
+    us += [("MULTILINE",), ("ROOTLIST",), ("DUPKW",)]
     us += S.doc_units(["S1", "S1n", "S4", "ROOT"] + (["S2"] if tier == "thorough" else []), tier)
     if tier == "thorough":
         us += [("DEV", t) for t in V.object_types()]
@@ -339,6 +341,59 @@ def run_faults(res, idx):
     R.add_sample(res, {"document": label, "objects": len(blocks)}, 1)
 
 
+def run_dupkw(res):
+    """a keyword written twice in one block: the value kept is the last one, and so must be the recorded position
+    (also with a validation fault on the last occurrence only)"""
+    for t in V.object_types():
+        for s_ in V.slots(t):
+            if s_.kind != "simple":
+                continue
+            reps = []
+            for a in s_.alts:
+                reps += V.reps_for(s_, a, valid_only=True)[:2]
+            if len(reps) < 2:
+                continue
+            fill = S.filler_kws(t, 1, avoid=(s_.key,))
+            tree = D.Block(t, [D.kw(s_.key, reps[0])] + fill + [D.kw(s_.key, reps[1])])
+            for lname, lkw in LAYOUTS[:4]:
+                check_tree(res, "DUPKW %s.%s" % (t, s_.key), tree, lname, lkw)
+    # fault on the last occurrence: the message must point at it
+    for t in V.object_types():
+        for kind, item, on_key in text_faults(t):
+            if not on_key:
+                continue
+            s_ = V.slot(t, item[1])
+            good = None
+            for a in s_.alts:
+                r = V.reps_for(s_, a, valid_only=True)
+                if r:
+                    good = r[0]
+                    break
+            if good is None:
+                continue
+            b = S.min_block(t, 1)
+            b.items = [it for it in b.items if not (it[0] == "kw" and it[1] == item[1])]
+            b.items = [D.kw(item[1], good)] + b.items + [item]
+            text, toks = D.render(b)
+            try:
+                d = impl.loads(text, include_position=True)
+                msgs = impl.validate(d, schema_name=t)
+            except Exception:
+                continue
+            res["evals"] += 1
+            kt = [x for x in toks if x.ref == (len(b.items) - 1,) and x.role == "key"][0]
+            want = (item[1].upper(), kt.line, kt.col)
+            got = {(m["message"].rsplit(" ", 1)[1], m.get("line"), m.get("column")) for m in msgs}
+            if want in got:
+                R.add_outcome(res, "located")
+                res["states"].add(R.h64(text))
+            else:
+                R.add_outcome(res, "mislocated")
+                R.add_violation(res, "dupkw_location|%s in %s" % (kind, t), "the fault is on the last occurrence of %s at %s, messages point at %s" % (
+                    item[1].upper(), want[1:], sorted(got, key=repr)), {"text": text, "root": t, "want": [list(want)], "subset": True}, None)
+    R.add_sub(res, "keywords written twice: positions and error locations", res["evals"])
+
+
 def run_rootlist(res):
     """several root blocks in one text, validated in ONE validate(list) call: every message must carry the position inside its own root"""
     for t in V.object_types():
@@ -469,6 +524,9 @@ def run_unit(unit):
         return res
     if unit[0] == "ROOTLIST":
         run_rootlist(res)
+        return res
+    if unit[0] == "DUPKW":
+        run_dupkw(res)
         return res
     if unit[0] == "DEV":
         run_dev(res, unit[1])
